@@ -57,4 +57,13 @@ structure RawBlk where
   witnessOk : Bool
 deriving DecidableEq, Repr, Inhabited
 
+/-- what one iteration of the first loop of init.rs synchronize_listeners does for its listener (the value of
+    the translated `initListenerStep`): `disc` = the arguments of its `disconnect_blocks(..)` calls in order,
+    `recd` = the heights pushed to `chain_listeners_at_height` for it, `most` = `most_connected_blocks` afterwards -/
+structure InitStep where
+  disc : List Hdr
+  recd : List Nat
+  most : List Hdr
+deriving DecidableEq, Repr
+
 end Ldk.ChainSync
